@@ -237,6 +237,29 @@ def check_exact(case, rec):
             require(float(np.max(np.abs(np.asarray(v4)[sl]))) <= tolv * 10,
                     f"one call for {tg.shape[1]} targets containing the data locations: kriging variance at the data is {float(np.max(np.abs(np.asarray(v4)[sl]))):.3g}, expected 0 (tol {tolv * 10:.3g})",
                     dict(tags, kind="variance_at_data_many_targets"))
+    if fdim > 1 and cfg["geo"] == "euclid" and not cfg.get("n_ext", 0) and not case.get("fit") and not mn and cond_pos.shape[1] >= 2:
+        # the object re-oriented in place + the documented refresh, then asked again on the targets it keeps (no positions passed)
+        with quiet():
+            kwn = dict(kc.target_kwargs(cfg, cond_pos))
+            k.set_condition(cond_pos.copy(), vals.copy())
+            lib(k, cond_pos.copy(), _what="Krige.__call__ at cond_pos", _tags=tags, **kwn)
+            a_ = np.array(k.model.anis, dtype=float)
+            a_[0] *= 2.5
+            k.model.anis = a_
+            g_ = np.array(k.model.angles, dtype=float)
+            g_[0] += 0.9
+            k.model.angles = g_
+            k.set_condition()
+            f5, v5 = lib(k, _what="Krige.__call__() on the stored positions after anis / angles change + set_condition()", _tags=tags, **kwn)
+        rec.label("stored_targets_after_reorientation")
+        if np.all(np.isfinite(f5)) and float(np.linalg.cond(k._krige_mat)) < 1e9:
+            e5 = np.abs(np.asarray(f5) - vals)
+            require(bool(np.all(e5 <= tolf * 10)),
+                    f"after anis / angles were assigned and set_condition() was called, krige() on the stored conditioning locations misses the data by {float(np.max(e5)):.3g}",
+                    dict(tags, kind="not_exact_after_reorientation"))
+            require(float(np.max(np.abs(v5))) <= tolv * 10,
+                    f"after anis / angles were assigned and set_condition() was called, the kriging variance at the stored conditioning locations is {float(np.max(np.abs(v5))):.3g}, expected 0",
+                    dict(tags, kind="variance_after_reorientation"))
     n_proc = int(cfg.get("norm", "None") != "None") + int(cfg.get("trend", "none") != "none") + int(cfg.get("mean", "none") not in ("none",))
     rec.nontrivial(cond_pos.shape[1] >= 3 and (n_proc > 0 or kc.is_unbiased(cfg) or cfg["exact"]))
 
